@@ -46,11 +46,21 @@ class AsmRun:
 STEP_LIMIT = 6000000
 
 
-def assemble(env, lines, want_listing=False, fs=None, bytes_of=None):
-    """bytes_of: indices of the statements whose emitted bytes are wanted (default: all)"""
+def assemble(env, lines, want_listing=False, fs=None, bytes_of=None, session=None):
+    """bytes_of: indices of the statements whose emitted bytes are wanted (default: all).
+    session: a dict shared by several calls that are to run like successive assemblies of ONE process in ONE working directory
+    (natively: the directory is created, populated and entered by the first call and left / removed by end_session)"""
     if env.mode == "sym":
         return _assemble_sym(env, lines, want_listing, fs, bytes_of)
-    return _assemble_native(env, lines, want_listing, fs, bytes_of)
+    return _assemble_native(env, lines, want_listing, fs, bytes_of, session)
+
+
+def end_session(session):
+    if session and session.get("dir"):
+        os.chdir(session["home"])
+        import shutil
+        shutil.rmtree(session["dir"], ignore_errors=True)
+        session.clear()
 
 
 def _assemble_sym(env, lines, want_listing, fs, bytes_of=None):
@@ -65,6 +75,7 @@ def _assemble_sym(env, lines, want_listing, fs, bytes_of=None):
     old_wh = it.write_hook
     it.write_hook = mon.hook
     lines_before = list(lines)
+    cwd_before = it.cwd
     it.steps = 0
     it.step_limit = STEP_LIMIT
     old_unroll = it.unroll_limit
@@ -133,6 +144,8 @@ def _assemble_sym(env, lines, want_listing, fs, bytes_of=None):
         it.step_limit = None
         it.unroll_limit = old_unroll
         it.write_hook = old_wh
+        if it.cwd != cwd_before:
+            mon.violations.append("the run leaves the process working directory changed (%r -> %r)" % (cwd_before, it.cwd))
         r.shared_writes = sorted(set(mon.violations))
         r.heap_writes = mon.writes
         same = len(lines) == len(lines_before) and all(a is b for a, b in zip(lines, lines_before))
@@ -158,20 +171,27 @@ def _native_modules():
     return P
 
 
-def _assemble_native(env, lines, want_listing, fs, bytes_of=None):
+def _assemble_native(env, lines, want_listing, fs, bytes_of=None, session=None):
     P = _native_modules()
     r = AsmRun()
     cwd = os.getcwd()
     tmpd = None
+    if session is not None and session.get("dir"):
+        fs = None                      # the session's directory is already populated and entered; stay wherever the code left us
     if fs:
         import tempfile
         work = os.path.join(os.path.dirname(os.path.dirname(os.path.abspath(__file__))), ".work")
         os.makedirs(work, exist_ok=True)
         tmpd = tempfile.mkdtemp(dir=work)
         for k, v in fs.items():
+            if os.path.dirname(k):
+                os.makedirs(os.path.join(tmpd, os.path.dirname(k)), exist_ok=True)
             with open(os.path.join(tmpd, k), "w") as f:
                 f.write("".join(v))
         os.chdir(tmpd)
+        if session is not None:
+            session["dir"], session["home"] = tmpd, cwd
+            tmpd = None                # kept until end_session
     old = signal.signal(signal.SIGALRM, _on_alarm)
     signal.setitimer(signal.ITIMER_REAL, 3.0)
     lines = list(lines)
@@ -189,6 +209,17 @@ def _assemble_native(env, lines, want_listing, fs, bytes_of=None):
             r.exc_class = type(e).__name__
             r.exc_msg = str(e)
             r.status = "diag" if r.exc_class in DIAG else "escape"
+            try:
+                fr = []
+                t = e.__traceback__
+                while t is not None:
+                    co = t.tb_frame.f_code
+                    if "cocoasm" in co.co_filename or co.co_filename.endswith("assembler.py"):
+                        fr.append("%s:%s" % (os.path.basename(co.co_filename), getattr(co, "co_qualname", co.co_name)))
+                    t = t.tb_next
+                r.exc_site = "<".join(reversed(fr[-2:]))
+            except Exception:  # noqa
+                r.exc_site = None
             return r
         except RecursionError as e:
             r.exc_class = "RecursionError"
